@@ -42,7 +42,7 @@ let report id nlink_one check x o =
 
 let prof = if Array.length Sys.argv > 2 && Sys.argv.(2) = "release" then Release else Debug
 
-let () =
+let bytes_mode () =
   let ic = open_in Sys.argv.(1) in
   (try
     while true do
@@ -64,3 +64,97 @@ let () =
     done
   with End_of_file -> ());
   close_in ic
+
+(* ------------------------------------------------------------------ file-system mode *)
+(* see lib/fsharness.py for the protocol *)
+let rec nat_of_int n = if n <= 0 then O else S (nat_of_int (n - 1))
+let int_of_z = function Z0 -> 0 | Zpos p -> int_of_pos p | Zneg p -> - (int_of_pos p)
+
+let kind_of_string = function "R" -> KReg | "D" -> KDir | "L" -> KLnk | _ -> KSpecial
+let string_of_kind = function KReg -> "R" | KDir -> "D" | KLnk -> "L" | KSpecial -> "S"
+let errno_name = function ENOENT -> "ENOENT" | EEXIST -> "EEXIST" | EPERM -> "EPERM" | EACCES -> "EACCES"
+                          | ENOSPC -> "ENOSPC" | EIO -> "EIO" | EOTHER -> "EOTHER"
+let errno_of_string = function "ENOENT" -> ENOENT | "EEXIST" -> EEXIST | "EPERM" -> EPERM | "EACCES" -> EACCES
+                               | "ENOSPC" -> ENOSPC | "EIO" -> EIO | _ -> EOTHER
+let op_kind = function
+  | OOpenRead _ -> "openr" | OFstat _ -> "fstat" | OCreateExcl _ -> "creat" | OOpenDevNull -> "devnull"
+  | OUnlink _ -> "unlink" | OWrite (_, _, _) -> "write" | OFchmod (_, _) -> "fchmod" | OFutimens (_, _) -> "futimens"
+  | OLchown (_, _, _) -> "lchown" | ORename (_, _) -> "rename" | OOpenWrite _ -> "openw" | OTruncate (_, _) -> "truncate"
+
+let handler_fun name epoch =
+  match name with
+  | "gzip" -> (match gzip_init epoch with Some e -> Some ((fun x -> gzip_process e x), (fun _ -> false)) | None -> None)
+  | "ar" -> Some ((fun x -> ar_process epoch x), ar_opens_output)
+  | _ -> None
+
+let fs_mode file =
+  let ic = open_in file in
+  let nodes = ref [] in
+  let id = ref "" in
+  (try
+    while true do
+      let line = input_line ic in
+      match String.split_on_char ' ' (String.trim line) with
+      | ["FS"; i] -> id := i; nodes := []
+      | ["N"; ph; ino; k; mode; uid; gid; mtime; nlink; data] ->
+        nodes := (unhex ph, int_of_string ino,
+                  { i_kind = kind_of_string k; i_data = unhex data; i_mode = n_of_int (int_of_string mode);
+                    i_uid = n_of_int (int_of_string uid); i_gid = n_of_int (int_of_string gid);
+                    i_mtime = z_of_string mtime; i_nlink = n_of_int (int_of_string nlink) }) :: !nodes
+      | ["RUN"; hname; epoch; check; prof; target; fkind; focc; fer; umask; uid; gid; canchown; now] ->
+        let epoch = if epoch = "-" then None else Some (z_of_string epoch) in
+        let nl = List.rev !nodes in
+        let names p = (try let (_, i, _) = List.find (fun (q, _, _) -> q = p) nl in Some (n_of_int i) with Not_found -> None) in
+        let inodes j = (try let (_, _, n) = List.find (fun (_, i, _) -> n_of_int i = j) nl in Some n with Not_found -> None) in
+        let next = 1 + List.fold_left (fun a (_, i, _) -> max a i) 0 nl in
+        let f0 = { names = names; inodes = inodes; next_ino = n_of_int next } in
+        let env = { e_umask = n_of_int (int_of_string umask); e_uid = n_of_int (int_of_string uid);
+                    e_gid = n_of_int (int_of_string gid); e_can_chown = (canchown = "1"); e_now = z_of_string now } in
+        let mode = if check = "1" then Check else Real in
+        let prof = if prof = "release" then Release else Debug in
+        let p = unhex target in
+        (match handler_fun hname epoch with
+         | None -> Printf.printf "%s CLASS InitFail\n%s END\n" !id !id
+         | Some (h, eager) ->
+           let run fault = run_handler env fault mode prof eager h p (init_sim f0) in
+           (* translate (kind, occurrence) into an operation index using the fault-free trace *)
+           let fault =
+             if fkind = "-" then None else begin
+               let (s0, _) = run None in
+               let tr = trace_of s0 in
+               let occ = int_of_string focc in
+               let rec find i n = function
+                 | [] -> None
+                 | (o, _) :: r -> if op_kind o = fkind then (if n = occ then Some i else find (i + 1) (n + 1) r) else find (i + 1) n r in
+               match find 0 1 tr with
+               | Some i -> Some (nat_of_int i, errno_of_string fer)
+               | None -> None
+             end in
+           let (s, cls) = run fault in
+           Printf.printf "%s CLASS %s\n" !id (match cls with Some c -> class_name c | None -> "Panic");
+           Printf.printf "%s FAULTHIT %s\n" !id (match fault with Some _ -> "1" | None -> if fkind = "-" then "-" else "0");
+           let ip0 = names p in
+           let okind o = match o with
+             | OWrite (i, _, _) -> if Some i = ip0 then "writep" else "writet"
+             | _ -> op_kind o in
+           Printf.printf "%s TRACE %s\n" !id
+             (String.concat " " (List.map (fun (o, r) -> okind o ^ ":" ^ (match r with None -> "ok" | Some er -> errno_name er)) (trace_of s)));
+           let show f q =
+             match obs f q with
+             | Some (i, n) -> Printf.sprintf "%d %s %d %d %d %d %d %s" (int_of_n i) (string_of_kind n.i_kind) (int_of_n n.i_mode)
+                                (int_of_n n.i_uid) (int_of_n n.i_gid) (int_of_z n.i_mtime) (int_of_n n.i_nlink) (hex n.i_data)
+             | None -> "ABSENT" in
+           let paths = List.sort_uniq compare (List.map (fun (q, _, _) -> q) nl @ [p; tmp_path p]) in
+           List.iter (fun q -> Printf.printf "%s OBS %s %s\n" !id (hex q) (show s.s_fs q)) paths;
+           List.iteri (fun k f -> Printf.printf "%s HIST %d %s | %s\n" !id k (show f p)
+                                   (match obs f (tmp_path p) with Some _ -> "TMP" | None -> "NOTMP")) (List.rev s.s_hist);
+           Printf.printf "%s END\n" !id)
+      | _ -> ()
+    done
+  with End_of_file -> ());
+  close_in ic
+
+let rec nat_of_int_ n = if n <= 0 then O else S (nat_of_int_ (n - 1))
+
+let () =
+  if Array.length Sys.argv > 3 && Sys.argv.(3) = "fs" then fs_mode Sys.argv.(1) else bytes_mode ()
